@@ -2336,8 +2336,9 @@ package xpath
 //@ define axisKnown(a) = a == "ancestor" || a == "ancestor-or-self" || a == "attribute" || a == "child" || a == "descendant" || a == "descendant-or-self" || a == "following" || a == "following-sibling" || a == "parent" || a == "preceding" || a == "preceding-sibling" || a == "self"
 //@ func isName
 //@   pure
-//@   props C15 C06
+//@   props C15 C06 C10
 //@   ensures[nul-is-no-name-char@C06] r == 0 ==> !result
+//@   ensures[star-is-no-name-char@C10] r == '*' ==> !result     // price*2 is three tokens, whatever the whitespace (repaired defect: '*' continued a name)
 //@ func isDigit
 //@   pure
 //@   props C15 C06
